@@ -1,5 +1,6 @@
 """C11: splitting keys at command boundaries changes nothing; flags start in Normal mode."""
 import json
+import re
 
 from .. import vim_lang as V
 from ..common import C, cli_map, server_map
@@ -9,7 +10,9 @@ PENDING = ["3", "12", '"a', '"', "d", "c", "y", "2d", '"ad', "g", "f", "dt", "di
 OPEN_MODES = [("ihello", "ihello<esc>"), ("Aend", "Aend<esc>"), ("oline", "oline<esc>"), ("Rxy", "Rxy<esc>"), ("vl", "vl<esc>"), ("Vj", "Vj<esc>"),
               ("<c-v>jl", "<c-v>jl<esc>"), ("cwnew", "cwnew<esc>"), ("a", "a<esc>")]
 COMPLETE_EXTRA = ["dvw", "dVj", '"ayw', '"Ayw', '"ap', "fa;", "tb,", "fa2;", "x.", "dw.", "/o<CR>n", "/a<CR>N", "?o<CR>n", "3x", "2dw", "yyp", "ddP", "xu",
-                  "ixy<esc>.", ":s/a/b/<CR>", "vey", "viwd", "guiw", "~", "J", "rZ"]
+                  "ixy<esc>.", ":s/a/b/<CR>", "vey", "viwd", "guiw", "~", "J", "rZ",
+                  # cancelled or rejected commands: what they had collected (count, register, operator, v/V modifier) must be gone
+                  "dv<esc>", "dV<esc>", "d<esc>", "c<esc>", '"a<esc>', "3<esc>", "2d<esc>", "g<esc>", "dvb", "dvq", "yV<esc>", "dv<esc>", "f<esc>", "dt<esc>", "di<esc>"]
 
 
 def complete_cmd(rng):
@@ -17,7 +20,10 @@ def complete_cmd(rng):
     if r < 0.3:
         return rng.choice(COMPLETE_EXTRA)
     if r < 0.65:
-        return V.nonedit(rng) if rng.random() < 0.5 else V.motion(rng)
+        c = V.nonedit(rng) if rng.random() < 0.5 else V.motion(rng)
+        if re.match(r"(v|V|<c-v>)", c) and not c.endswith("<esc>"):
+            c += "<esc>"        # a selection made for a field: closed here, so that every generated command is complete
+        return c
     return V.edit(rng)
 
 
@@ -81,6 +87,14 @@ def run(chk, binary):
             continue
         if not all(is_complete(s) for s in steps):
             dist["rejected_not_at_boundary"] += 1
+            # every generated command is complete by construction: one that leaves a mode, a selection or pending keys
+            # behind is itself a violation (and hides the sequence from the splitting comparison)
+            i = next(j for j, s_ in enumerate(steps) if not is_complete(s_))
+            if not re.match(r"(v|V|<c-v>)", cmds[i]) or cmds[i].endswith("<esc>") or i > 0:
+                s_ = steps[i]
+                chk.violation("spec:a complete command did not end at a command boundary",
+                              {"text": text, "cursor": start, "commands": cmds[:i + 1], "mode": s_.get("mode"), "pending": s_.get("pending"),
+                               "select_mode": str(s_.get("select_mode")), "queue": s_.get("queue")})
             continue
         good.append((text, cmds, start, steps[-1]))
     jobs = []
@@ -146,6 +160,9 @@ def run(chk, binary):
             kind = "pending_tails"
         else:
             op, closed = rng.choice(OPEN_MODES)
+            if rng.random() < 0.5:
+                # what a closed session could still reach into: backward word motions (the ctrl-w bound), dot, undo, put
+                nxt = rng.choice(["b", "B", "db", "dB", "cBé<esc>", "ge", ".", "2.", "j.", "u", "p", "i<c-w>x<esc>", "x", "P"])
             a_args, b_args = [pre + op, nxt], [pre + closed, nxt]
             kind = "open_modes"
         reqs.append({"op": "keys", "text": text, "cursor": 0, "keys": b_args[:1], "keep_mode": False})
